@@ -111,6 +111,43 @@ func c17DependsOn(v ssa.Value, target func(ssa.Value) bool) bool {
 	return walk(v, 0)
 }
 
+// c17IsGenericStatic matches a call of (an instantiation of) the generic
+// package-level function pkgPath.name.
+func c17IsGenericStatic(c CallSite, pkgPath, name string) bool {
+	f := c.Callee()
+	if f == nil {
+		return false
+	}
+	if o := f.Origin(); o != nil {
+		f = o
+	}
+	if f.Name() != name || f.Signature.Recv() != nil {
+		return false
+	}
+	var pkg *types.Package
+	if f.Pkg != nil {
+		pkg = f.Pkg.Pkg
+	} else if f.Object() != nil {
+		pkg = f.Object().Pkg()
+	}
+	return pkg != nil && pkg.Path() == pkgPath
+}
+
+// c17Method returns the declared (non-synthetic) method name of named type n,
+// whether it has a value or a pointer receiver; nil when absent.
+func c17Method(p *Program, n *types.Named, name string) *ssa.Function {
+	for _, t := range []types.Type{n, types.NewPointer(n)} {
+		sel := p.SSA.MethodSets.MethodSet(t).Lookup(n.Obj().Pkg(), name)
+		if sel == nil {
+			continue
+		}
+		if f := p.SSA.MethodValue(sel); f != nil && f.Synthetic == "" && f.Blocks != nil {
+			return f
+		}
+	}
+	return nil
+}
+
 func c17DependsOnValue(v, on ssa.Value) bool {
 	return c17DependsOn(v, func(x ssa.Value) bool { return x == on })
 }
@@ -707,10 +744,11 @@ func c17RuleGate(p *Program, r *Reporter) {
 	}
 	first1 := g.scenario("first-of-1", 0, 1, nonNil)
 	first2 := g.scenario("first-of-2", 0, 2, nonNil)
+	first3 := g.scenario("first-of-3", 0, 3, nonNil)
 	firstN := g.scenario("first-of-many", 0, 1000, nonNil)
 	mid3 := g.scenario("middle-of-3", 1, 3, nonNil)
 	midN := g.scenario("middle-of-many", 500, 1000, nonNil)
-	firstAll := []*c17Scenario{first1, first2, firstN}
+	firstAll := []*c17Scenario{first1, first2, first3, firstN}
 
 	boolCallBranches := func(call CallSite, resultIdx int, goodVal bool) []c17Branch {
 		rv := ResultValue(call.Value(), resultIdx)
@@ -870,7 +908,7 @@ func c17RuleGate(p *Program, r *Reporter) {
 	}
 	// P: target equality: comparison of something derived from chain[1]/chain[i+1] with share.Target()
 	{
-		pd := &c17Pred{name: "target", what: "hop 1 is not the share's target", scenarios: []*c17Scenario{first2, firstN}}
+		pd := &c17Pred{name: "target", what: "hop 1 is not the share's target", scenarios: []*c17Scenario{first2, first3, firstN}}
 		isTargetOfShare := func(v ssa.Value) bool {
 			return c17DependsOn(v, func(x ssa.Value) bool {
 				c, ok := x.(*ssa.Call)
@@ -931,7 +969,7 @@ func c17RuleGate(p *Program, r *Reporter) {
 		return false, false
 	})
 	{
-		pd := &c17Pred{name: "transitive", what: "share is not transitive but the chain is longer than share -> target", scenarios: []*c17Scenario{firstN}}
+		pd := &c17Pred{name: "transitive", what: "share is not transitive but the chain is longer than share -> target", scenarios: []*c17Scenario{first3, firstN}}
 		if len(isTransitive) == 0 {
 			pd.missing = "no (schema.Share).IsTransitive call: non-transitive shares would open their whole subtree"
 		} else {
@@ -1058,7 +1096,7 @@ var c17ErrorSenders = map[string]string{
 
 func c17GateEntries(p *Program, r *Reporter, gate *ssa.Function) {
 	recv := NamedOf(gate.Signature.Recv().Type())
-	serve, _ := p.MethodOf(recv, "ServeHTTP")
+	serve := c17Method(p, recv, "ServeHTTP")
 	if serve == nil {
 		brokenf("anchor unresolved: %s has no ServeHTTP", recv)
 	}
@@ -1268,7 +1306,7 @@ func c17RuleLinks(p *Program, r *Reporter) {
 				}
 			case *ssa.Call:
 				cs := CallSite{fn, x}
-				if cs.IsStatic("slices", "", "Contains") && len(x.Call.Args) == 2 && isTarget(x.Call.Args[1]) {
+				if c17IsGenericStatic(cs, "slices", "Contains") && len(x.Call.Args) == 2 && isTarget(x.Call.Args[1]) {
 					cmps = append(cmps, cmp{x, x.Call.Args[0], "slices.Contains"})
 				}
 			}
@@ -1511,6 +1549,8 @@ type c17Auth struct {
 	createH     *ssa.Function
 	authHandler *types.Named
 	httpHandler *types.Interface
+	// concrete handler type -> registered type name, for types handlerTypeWantsAuth answers true
+	wrappedConcrete map[*types.Named]string
 }
 
 // c17ServerScope: packages whose handler registrations make up a perkeepd
@@ -1535,60 +1575,98 @@ func c17RuleAuth(p *Program, r *Reporter) {
 		brokenf("anchor unresolved: net/http.Handler")
 	}
 	a.httpHandler = tn.Type().Underlying().(*types.Interface)
-	r.Floor("H-auth", 30)
+	r.Floor("H-auth", 28)
 	a.handlerTypes()
 	a.constructors()
 	a.registrations()
 	a.wrappers()
 }
 
-// evalStringPred evaluates a func(string) bool on a constant argument by
-// following only comparisons of the parameter with string constants.
+// c17EvalStringPred evaluates a func(string) bool on a constant argument by
+// following only comparisons of the parameter with string constants (switch,
+// if chains, ||/&& chains lowered to phis).
 func c17EvalStringPred(fn *ssa.Function, arg string) (val, decided bool) {
 	if len(fn.Params) != 1 || len(fn.Blocks) == 0 {
 		return false, false
 	}
 	prm := fn.Params[0]
-	b := fn.Blocks[0]
-	for steps := 0; steps < 500; steps++ {
-		last := b.Instrs[len(b.Instrs)-1]
-		switch t := last.(type) {
-		case *ssa.Return:
-			if len(t.Results) != 1 {
-				return false, false
+	env := map[ssa.Value]ssa.Value{} // phi -> chosen incoming value
+	var eval func(v ssa.Value, d int) (bool, bool)
+	eval = func(v ssa.Value, d int) (bool, bool) {
+		if d > 50 {
+			return false, false
+		}
+		switch x := v.(type) {
+		case *ssa.Const:
+			if x.Value != nil && x.Value.Kind() == constant.Bool {
+				return constant.BoolVal(x.Value), true
 			}
-			k, ok := t.Results[0].(*ssa.Const)
-			if !ok || k.Value == nil || k.Value.Kind() != constant.Bool {
-				return false, false
+		case *ssa.Phi:
+			if e, ok := env[x]; ok {
+				return eval(e, d+1)
 			}
-			return constant.BoolVal(k.Value), true
-		case *ssa.Jump:
-			b = b.Succs[0]
-		case *ssa.If:
-			cond, pol := c17StripNot(t.Cond, true)
-			bo, ok := cond.(*ssa.BinOp)
-			if !ok || (bo.Op != token.EQL && bo.Op != token.NEQ) {
+		case *ssa.UnOp:
+			if x.Op == token.NOT {
+				r, ok := eval(x.X, d+1)
+				return !r, ok
+			}
+		case *ssa.BinOp:
+			if x.Op != token.EQL && x.Op != token.NEQ {
 				return false, false
 			}
 			var k string
 			var have bool
-			if sameOrigin(bo.X, prm) {
-				k, have = ConstString(bo.Y)
-			} else if sameOrigin(bo.Y, prm) {
-				k, have = ConstString(bo.X)
+			if sameOrigin(x.X, prm) {
+				k, have = ConstString(x.Y)
+			} else if sameOrigin(x.Y, prm) {
+				k, have = ConstString(x.X)
 			}
 			if !have {
 				return false, false
 			}
-			res := (k == arg) == (bo.Op == token.EQL)
-			if res == pol {
-				b = b.Succs[0]
+			return (k == arg) == (x.Op == token.EQL), true
+		}
+		return false, false
+	}
+	b := fn.Blocks[0]
+	var prev *ssa.BasicBlock
+	for steps := 0; steps < 1000; steps++ {
+		if prev != nil {
+			for _, in := range b.Instrs {
+				ph, ok := in.(*ssa.Phi)
+				if !ok {
+					break
+				}
+				for i, pr := range b.Preds {
+					if pr == prev {
+						env[ph] = ph.Edges[i]
+					}
+				}
+			}
+		}
+		var next *ssa.BasicBlock
+		switch t := b.Instrs[len(b.Instrs)-1].(type) {
+		case *ssa.Return:
+			if len(t.Results) != 1 {
+				return false, false
+			}
+			return eval(t.Results[0], 0)
+		case *ssa.Jump:
+			next = b.Succs[0]
+		case *ssa.If:
+			res, ok := eval(t.Cond, 0)
+			if !ok {
+				return false, false
+			}
+			if res {
+				next = b.Succs[0]
 			} else {
-				b = b.Succs[1]
+				next = b.Succs[1]
 			}
 		default:
 			return false, false
 		}
+		prev, b = b, next
 	}
 	return false, false
 }
@@ -1606,6 +1684,19 @@ func (a *c17Auth) handlerTypes() {
 	}{
 		"share": {"the share handler is the one deliberately unauthenticated endpoint; it validates the via chain itself (H-gate)", a.checkShareCtor},
 		"root":  {"the root handler serves only a public landing page/redirects and gates discovery per request", a.checkRootCtor},
+	}
+	a.wrappedConcrete = map[*types.Named]string{}
+	for _, c := range p.StaticCallers(reg) {
+		typ, ok := ConstString(c.Args()[0])
+		ctor, _ := originValue(c.Args()[1]).(*ssa.Function)
+		if !ok || ctor == nil || IsTestSupportPkg(RelPkg(c.Fn.Pkg.Pkg)) {
+			continue
+		}
+		if val, decided := c17EvalStringPred(a.wantsAuth, typ); decided && val {
+			if cn := c17CtorConcrete(ctor); cn != nil {
+				a.wrappedConcrete[cn] = typ
+			}
+		}
 	}
 	n := 0
 	for _, c := range p.StaticCallers(reg) {
@@ -1703,7 +1794,7 @@ func (a *c17Auth) checkRootCtor(ctor *ssa.Function) (bool, string) {
 	if n == nil {
 		return false, "cannot determine the concrete handler type the constructor returns"
 	}
-	serve, _ := p.MethodOf(n, "ServeHTTP")
+	serve := c17Method(p, n, "ServeHTTP")
 	if serve == nil {
 		return false, "no ServeHTTP on " + n.Obj().Name()
 	}
@@ -1734,22 +1825,40 @@ func (a *c17Auth) checkRootCtor(ctor *ssa.Function) (bool, string) {
 	if nGuarded == 0 {
 		return false, "no state-reporting method (serveDiscovery) found under auth.Allowed in " + FuncKey(serve)
 	}
-	// and those methods have no other caller / are not used as values
+	// and those methods have no other unauthenticated caller / are not used as values
+	var others []string
 	for _, c := range c17UsesOf(serve, rw) {
 		callee := c.Callee()
 		if callee == nil || callee.Signature.Recv() == nil || NamedOf(callee.Signature.Recv().Type()) != n {
 			continue
 		}
 		for _, oc := range p.StaticCallers(callee) {
-			if oc.Fn != serve {
-				return false, fmt.Sprintf("%s is also called from %s", FuncKey(callee), FuncKey(oc.Fn))
+			if oc.Fn == serve {
+				continue
 			}
+			// another handler may reuse it when that handler's own type is auth-wrapped by policy
+			top := TopFunc(oc.Fn)
+			var on *types.Named
+			if top.Signature.Recv() != nil {
+				on = NamedOf(top.Signature.Recv().Type())
+			}
+			if typ, ok := a.wrappedConcrete[on]; ok && on != nil {
+				others = append(others, fmt.Sprintf("%s (type %q, auth-wrapped)", FuncKey(oc.Fn), typ))
+				continue
+			}
+			return false, fmt.Sprintf("%s is also called from %s, which is not a handler of an auth-wrapped type", FuncKey(callee), FuncKey(oc.Fn))
 		}
 		if len(p.FuncValueUses(callee)) > 0 {
 			return false, FuncKey(callee) + " is used as a function value"
 		}
 	}
-	return true, fmt.Sprintf("%d receiver method(s) given the ResponseWriter in %s, each under auth.Allowed(req, op!=0)==true and called from nowhere else", nGuarded, FuncKey(serve))
+	d := fmt.Sprintf("%d receiver method(s) given the ResponseWriter in %s, each under auth.Allowed(req, op!=0)==true", nGuarded, FuncKey(serve))
+	if len(others) > 0 {
+		d += "; other callers: " + strings.Join(others, ", ")
+	} else {
+		d += "; no other caller"
+	}
+	return true, d
 }
 
 // opNonZero: the Operation is a non-zero constant, or a result of a module
@@ -2119,7 +2228,7 @@ func (a *c17Auth) classify(v ssa.Value, pred, at *ssa.BasicBlock, fn *ssa.Functi
 		}
 		// a concrete handler type: always refusing?
 		if n := NamedOf(t); n != nil {
-			if serve, _ := p.MethodOf(n, "ServeHTTP"); serve != nil && InModule(serve) {
+			if serve := c17Method(p, n, "ServeHTTP"); serve != nil && InModule(serve) {
 				if ok, why := a.alwaysRefuses(serve); ok {
 					return true, why
 				}
@@ -2331,7 +2440,7 @@ func (a *c17Auth) wrappers() {
 		r.Check(ok, "H-auth", construct, p.Pos(a.requireAuth.Pos()), "RequireAuth returns its guarding closure on every path", "RequireAuth does not (only) return a closure that checks auth.Allowed before calling the wrapped handler")
 	}
 	{
-		serve, _ := p.MethodOf(a.authHandler, "ServeHTTP")
+		serve := c17Method(p, a.authHandler, "ServeHTTP")
 		if serve == nil {
 			brokenf("anchor unresolved: auth.Handler.ServeHTTP")
 		}
